@@ -48,6 +48,7 @@ var c07Shapes = []struct{ Name, Src string }{
 	{"same-path-twice", "import (\n\t\"fmt\"\n\tfmt2 \"fmt\"\n)\n"},
 	{"aliased-to-own-name", "import (\n\tfmt \"fmt\"\n\tio2 \"io\"\n)\n"},
 	{"cgo-in-group", "import (\n\t\"C\"\n\t\"fmt\"\n\tx2 \"c.d/x\"\n\t_ \"io\"\n)\n"},
+	{"three-groups", "import (\n\t\"fmt\"\n\n\t\"a.b/x\"\n\tx2 \"c.d/x\"\n\n\ty \"e.f/y-go\"\n\t\"io\"\n)\n"},
 	{"raw-string-paths", "import (\n\tf `fmt`\n\t`io` // raw\n\n\t. `a.b/x`\n\t\"c.d\\x2fx\"\n)\n"},
 }
 
@@ -77,10 +78,10 @@ func init() {
 	core.Register(&core.Prop{
 		ID:    "C07",
 		Level: "model_checking",
-		Rule: "every configuration: used-path set (32 subsets of 5 paths incl. two packages named x and one whose name differs from its path) x 12 existing import shapes (none, single, block, two blocks, cgo alone and cgo leading a group, aliases/blank/dot, commented groups, same path twice, alias equal to name, raw-string and escaped path literals) " +
+		Rule: "every configuration: used-path set (32 subsets of 5 paths incl. two packages named x and one whose name differs from its path) x 13 existing import shapes (none, single, block, two blocks, cgo alone and cgo leading a group, aliases/blank/dot, commented groups, same path twice, alias equal to name, raw-string and escaped path literals) " +
 			"x FileRestorer.Alias override {none} + path x {new id, id of another package, the suffixed name a conflict would generate (x1), an alias another source import already uses, '.', '', '_'} (and a second simultaneous override on a later path: quick {new id equal to the first override's, name of another package}, thorough the whole alphabet) x resolver {exact, lacking unused paths} x local path {unrelated, equal to a used path}; the Restorer built by the constructor or configured through its fields; trees whose File.Imports and import declarations disagree (declarations deleted by hand, File.Imports emptied); every shape also restored as the second file of a Restorer that restored another shape first (with and without an alias override there); references are path-carrying identifiers in call, type and composite-literal positions; " +
 			"oracle independent of updateImports: re-parse the output, rebuild the import table from its import declarations and the resolver map; binding of every reference, exact import set, distinct names, name preference override > source alias > resolved name (+ decimal suffix on conflict), " +
-			"stable order/comments when nothing is added, and go/types acceptance; state = configuration; non-trivial = configuration with at least one used path",
+			"stable order/comments/group separation when nothing is added, and go/types acceptance; state = configuration; non-trivial = configuration with at least one used path",
 		Assumptions: []string{"package i exports Fi/Ti/Vi so that a reference name identifies its package", "go/types (FakeImportC) is the acceptance oracle"},
 		Units: func(tier string) []string {
 			var u []string
@@ -579,6 +580,47 @@ func c07Check(cs c07Case) core.Outcome {
 			for j := i + 1; j < len(imps); j++ {
 				if group[i] != group[j] && srcIdx[imps[i].path] > srcIdx[imps[j].path] {
 					return fail("import-order-changed", "%s", desc(fmt.Sprintf("no import had to be added, yet %q now precedes %q (source order %v)", imps[i].path, imps[j].path, srcOrder)))
+				}
+			}
+		}
+		// the blank lines that separate groups of specs are decorations too: two surviving specs of one
+		// declaration that the source kept in different groups are still in different groups
+		{
+			sfset := token.NewFileSet()
+			ssrc := "package a\n\n" + c07Shapes[cs.Shape].Src
+			if sf, err := parser.ParseFile(sfset, "", ssrc, parser.ParseComments); err == nil && cs.Stale == "" {
+				slines := strings.Split(ssrc, "\n")
+				srcGroup := map[string]int{}
+				sg := 0
+				for i, is := range sf.Imports {
+					if i > 0 {
+						prevEnd := sfset.Position(sf.Imports[i-1].End()).Line
+						start := sfset.Position(is.Pos()).Line
+						if is.Doc != nil {
+							start = sfset.Position(is.Doc.Pos()).Line
+						}
+						for l := prevEnd; l < start-1; l++ {
+							if t := strings.TrimSpace(slines[l]); t == "" || strings.HasPrefix(t, ")") || strings.HasPrefix(t, "import") {
+								sg++
+								break
+							}
+						}
+					}
+					p, _ := strconv.Unquote(is.Path.Value)
+					if _, seen := srcGroup[p]; !seen {
+						srcGroup[p] = sg
+					}
+				}
+				for i := range imps {
+					for j := i + 1; j < len(imps); j++ {
+						gi, iok := srcGroup[imps[i].path]
+						gj, jok := srcGroup[imps[j].path]
+						// (only for neighbours in the source: the blank line between specs that were not neighbours
+						// may have belonged to a spec that is gone)
+						if iok && jok && gi != gj && group[i] == group[j] && srcIdx[imps[j].path]-srcIdx[imps[i].path] == 1 {
+							return fail("import-groups-merged", "%s", desc(fmt.Sprintf("no import had to be added, yet %q and %q, which were neighbours separated by a blank line in the source, are now in one group", imps[i].path, imps[j].path)))
+						}
+					}
 				}
 			}
 		}
